@@ -52,6 +52,14 @@ def _raw_cast(x, y, n_bits):
         return lambda m: np.asarray(m).astype(object)   # (astype also turns a numpy scalar, e.g. an indexed element, into a python integer)
     return lambda m: m
 
+def _raw_accum(x, n_bits):
+    # raw codes of an operand that are accumulated (summed / multiplied together): numpy integers only if `n_bits`, the bits the accumulated
+    # result can need, fit in them (numpy integers wrap around silently); python integers otherwise
+    val = np.asarray(x.val)
+    if n_bits >= _n_word_max - 1 and val.dtype.kind in 'iu':
+        return val.astype(object)
+    return val
+
 def _scale_raw_result(m, n_shift):
     # raw (integer) result `m` scaled by 2**n_shift. When fraction bits are dropped (n_shift < 0) from a result of more than 53 bits, the exact
     # quotient is kept as Fractions: a float factor would round it to a double before the rounding of the destination is applied
@@ -582,7 +590,7 @@ def sum(x, axis=None, out=None, out_like=None, sizing='optimal', method='raw', *
     """
     """
     def _sum_raw(x, n_frac, **kwargs):
-        return utils.scale_raw(np.sum(x.val, **kwargs), n_frac - x.n_frac)   # (exact: python integers / exact quotients where 64 bits numpy integers or a float factor would not do)
+        return utils.scale_raw(np.sum(_raw_accum(x, x.n_word + int(np.ceil(np.log2(max(x.size, 1))))), **kwargs), n_frac - x.n_frac)   # (exact: python integers / exact quotients where 64 bits numpy integers or a float factor would not do)
 
     if not isinstance(x, Fxp):
         x = Fxp(x)
@@ -601,7 +609,7 @@ def cumsum(x, axis=None, out=None, out_like=None, sizing='optimal', method='raw'
     """
     """
     def _cumsum_raw(x, n_frac, **kwargs):
-        return utils.scale_raw(np.cumsum(x.val, **kwargs), n_frac - x.n_frac)   # (exact: python integers / exact quotients where 64 bits numpy integers or a float factor would not do)
+        return utils.scale_raw(np.cumsum(_raw_accum(x, x.n_word + int(np.ceil(np.log2(max(x.size, 1))))), **kwargs), n_frac - x.n_frac)   # (exact: python integers / exact quotients where 64 bits numpy integers or a float factor would not do)
 
     if not isinstance(x, Fxp):
         x = Fxp(x)
@@ -737,7 +745,7 @@ def trace(a, offset=0, axis1=0, axis2=1, out=None, out_like=None, sizing='optima
     """
     """
     def _trace_raw(x, n_frac, **kwargs):
-        return utils.scale_raw(np.trace(x.val, **kwargs), n_frac - x.n_frac)   # (exact: python integers / exact quotients where 64 bits numpy integers or a float factor would not do)
+        return utils.scale_raw(np.trace(_raw_accum(x, x.n_word + int(np.ceil(np.log2(max(x.size, 1))))), **kwargs), n_frac - x.n_frac)   # (exact: python integers / exact quotients where 64 bits numpy integers or a float factor would not do)
 
     if not isinstance(a, Fxp):
         a = Fxp(a)
@@ -768,7 +776,7 @@ def prod(a, axis=None, out=None, out_like=None, sizing='optimal', method='raw', 
     def _prod_raw(x, n_frac, axis=None, **kwargs):
         precision_cast = (lambda m: np.array(m, dtype=object)) if n_frac >= _n_word_max else (lambda m: m)
         num_of_products = _num_of_products(a, axis)
-        return utils.scale_raw(np.prod(x.val, axis=axis, **kwargs), n_frac - num_of_products * x.n_frac)
+        return utils.scale_raw(np.prod(_raw_accum(x, x.n_word * num_of_products), axis=axis, **kwargs), n_frac - num_of_products * x.n_frac)
 
     if not isinstance(a, Fxp):
         a = Fxp(a)
@@ -796,6 +804,9 @@ def dot(x, y, out=None, out_like=None, sizing='optimal', method='raw', **kwargs)
                 x_raw = x_raw.astype(np.int64)
             if y_raw.dtype.kind == 'u' and y.n_word < _n_word_max:
                 y_raw = y_raw.astype(np.int64)
+        if x.n_word + y.n_word + int(np.ceil(np.log2(max(np.shape(x_raw)[-1] if np.ndim(x_raw) else 1, 1)))) >= _n_word_max - 1:
+            # the accumulated products can leave 64 bits (numpy integers wrap around silently): python integers
+            x_raw, y_raw = np.asarray(x_raw).astype(object), np.asarray(y_raw).astype(object)
         return utils.scale_raw(np.dot(x_raw, y_raw, **kwargs), n_frac - x.n_frac - y.n_frac)
 
     if not isinstance(x, Fxp):
